@@ -208,6 +208,20 @@ B9 = {
  "C18-15": ("C18", "backend nodes that differ in release / CQL / DSE version, the control connection re-established on another node while clients send OPTIONS / system reads", "Cluster.Info fields rewritten on reconnect without synchronisation"),
  "C20-8": ("C20", "a frame of a version above max-protocol-version (refused), then another frame of that version on the same connection", "version validated only when it differs from the remembered one, which is updated before the validation: the connection is then served in the refused version"),
 }
+B10 = {
+ "C02-9": ("C02", "the proxy answering forwarded requests itself (node down, plan used up) for several clients at once while a client's write loop lags (slow reader, pipelining)", "request objects pooled and handed back before the queued closure that reads stream / version / codec has run: the error frame carries another request's stream id"),
+ "C03-8": ("C03", "override configured, an uncompressed non-SELECT EXECUTE at a listed consistency from a v5 / DSEv2 client", "consistency overwritten in place at an offset that leaves out result_metadata_id: its length prefix is overwritten, the real consistency untouched"),
+ "C03-10": ("C03", "an lz4 frame that the override re-encodes, with a run of >= 64 bytes of a repeating non-zero pattern in the body", "lz4 decoder copies long overlapping matches in doubling chunks from a source slice that includes unwritten bytes: pattern + zeros"),
+ "C07-11": ("C07", "USE of a keyspace the backend refuses, the cause goes away (keyspace created), USE of it again by any client", "in-flight table of session attempts only cleaned on success: every later USE of that keyspace is answered with the stale error"),
+ "C10-13": ("C10", "the same bare table name (local / peers) sent as QUERY before and after USE system on one connection", "handled-or-forwarded decision cached per connection by text only: the read after USE system is forwarded, the client sees the backend's tables"),
+ "C11-11": ("C11", "EXECUTEs of both version families (v3/v4/DSEv1 and v5/DSEv2) decoded by one process", "result-metadata-id layout decided by the first EXECUTE the shared codec instance sees"),
+ "C11-12": ("C11", "BATCH with bound values in a frame that carries a custom payload, decoded on the uncompressed path", "children's values sliced from the frame body at an offset relative to the message"),
+ "C13-12": ("C13", ">= 2 connections that negotiated lz4 sending compressed frames at overlapping times", "decode buffer kept in the one lz4 compressor all lz4 connections share: a frame is decoded with bytes of another connection's frame"),
+ "C13-13": ("C13", "the proxy embedded with its own protocol version above the maximum for clients (proxy.Config through the Go API), a backend that accepts that version", "negotiated version raises the maximum accepted from clients: frames above the configured maximum are served"),
+ "C16-12": ("C16", "a pooled connection replaced once (or belonging to a host added later) that then stops answering without FIN / RST", "heartbeats started for the connections a pool starts with only: replacements have no heartbeats and no idle timer"),
+ "C17-8": ("C17", "backend answers the proxy's own heartbeat with UNPREPARED (id in the prepared cache) carrying warnings / tracing id / custom payload, then answers the PREPARE", "guards for the connection's own requests sit only in the fast path that reads the error code from the plain body: panic 'not implemented'"),
+}
+B9.update(B10)
 B8.update(B9)
 B7.update(B8)
 B6.update(B7)
@@ -240,7 +254,7 @@ for sid in sorted(os.listdir(os.path.join(V, "seeded"))):
         demos = sorted(f for f in os.listdir(d) if f not in ("patch.diff", "meta.json", "notes.md"))
         meta = {
             "id": sid, "breaks_property": prop,
-            "origin": "fresh sub-agent given only the property text and a scratch worktree of /repo (commit %s)" % ("dd3f42b (round 9)" if sid in B9 else "dd3f42b (round 8)" if sid in B8 else "19163b6 (round 7)" if sid in B7 else "19163b6 (round 6)" if sid in B6 else "19163b6" if sid in B5 else "78cb41b" if sid in B4 else "98f4792" if sid in B3 else "2fe6b89"),
+            "origin": "fresh sub-agent given only the property text and a scratch worktree of /repo (commit %s)" % ("dd3f42b (round 10)" if sid in B10 else "dd3f42b (round 9)" if sid in B9 else "dd3f42b (round 8)" if sid in B8 else "19163b6 (round 7)" if sid in B7 else "19163b6 (round 6)" if sid in B6 else "19163b6" if sid in B5 else "78cb41b" if sid in B4 else "98f4792" if sid in B3 else "2fe6b89"),
             "needs_to_manifest": needs, "effect": effect, "demonstration": demos,
             "confirmed": "bin/seedconfirm in the scratch worktree: patch applies, go build ok, existing suite passes with it (in a private network namespace), demonstration FAILS with the patch and PASSES without it",
             "checks_run": "bin/seedtest seeded/%s/patch.diff quick %s ; bin/seedmatrix quick" % (sid, prop),
